@@ -785,6 +785,72 @@ def r10(ctx, R):
                 R.ok("C07.R10", f.short, kk, loc(f, f.node), "rejected")
 
 
+# ------------------------------------------------------------------ R11
+def r11(ctx, R):
+    """Every element is examined: a loop that collects findings (Diagnostic objects,
+    or entries of a field that a diagnostics builder later turns into Diagnostic
+    objects one by one) is not left early.  `break`/`return` inside such a loop
+    silently drops the findings of the elements not yet visited."""
+    R.rule("C07.R11", "loops that collect findings visit every element: no break/return leaves a loop that appends to a list of diagnostics or to a field a diagnostics builder reports element by element", floor=3, confirmed=5)
+    # fields reported element by element: `for x in self.F: ... Diagnostic(...)`
+    fields = {}
+    for f, c in constructions(ctx):
+        p_ = ctx.m.parent.get(c)
+        while p_ is not None and p_ is not f.node:
+            if isinstance(p_, (ast.For, ast.comprehension)) and isinstance(p_.iter, ast.Attribute) and isinstance(p_.iter.value, ast.Name) and f.params and p_.iter.value.id == f.params[0]:
+                fields.setdefault(p_.iter.attr, f)
+            p_ = ctx.m.parent.get(p_)
+    # comprehensions do not have parent links to `comprehension` nodes through elt: look them up directly
+    for f, c in constructions(ctx):
+        for comp in (n for n in ctx.m.walk_own(f.node) if isinstance(n, (ast.ListComp, ast.GeneratorExp)) and any(x is c for x in ast.walk(n.elt))):
+            for g_ in comp.generators:
+                if isinstance(g_.iter, ast.Attribute) and isinstance(g_.iter.value, ast.Name) and f.params and g_.iter.value.id == f.params[0]:
+                    fields.setdefault(g_.iter.attr, f)
+    n = 0
+    for f in sorted(ctx.m.funcs.values(), key=lambda g: g.qual):
+        if f.rel.endswith("debug.py"):
+            continue
+        for lp in (x for x in ctx.m.walk_own(f.node) if isinstance(x, (ast.For, ast.While))):
+            acc = None
+            for c in (x for s_ in lp.body for x in ast.walk(s_) if isinstance(x, ast.Call)):
+                if not (isinstance(c.func, ast.Attribute) and c.func.attr in ("append", "extend", "insert")):
+                    continue
+                recv = c.func.value
+                if isinstance(recv, ast.Attribute) and isinstance(recv.value, ast.Name) and f.params and recv.value.id == f.params[0] and recv.attr in fields:
+                    acc = (f"self.{recv.attr}", f"reported one by one in {fields[recv.attr].short}")
+                elif isinstance(recv, ast.Name) and any(isinstance(x, ast.Call) and isinstance(x.func, ast.Name) and x.func.id == "Diagnostic" for a_ in c.args for x in ast.walk(a_)):
+                    acc = (recv.id, "list of diagnostics")
+            if acc is None:
+                continue
+            n += 1
+            # exits that belong to this loop (not to a nested loop / nested function)
+            exits = []
+
+            def scan(stmts, depth):
+                for s_ in stmts:
+                    if isinstance(s_, (ast.FunctionDef, ast.AsyncFunctionDef, ast.ClassDef)):
+                        continue
+                    if isinstance(s_, ast.Break) and depth == 0:
+                        exits.append(s_)
+                    elif isinstance(s_, ast.Return):
+                        exits.append(s_)
+                    for fld_, val in ast.iter_fields(s_):
+                        if isinstance(val, list) and val and isinstance(val[0], ast.stmt):
+                            scan(val, depth + (1 if isinstance(s_, (ast.For, ast.While)) and fld_ == "body" else 0))
+                        elif isinstance(val, list) and val and isinstance(val[0], ast.ExceptHandler):
+                            for h in val:
+                                scan(h.body, depth)
+
+            scan(lp.body, 0)
+            k = key(f, lp)[:90]
+            if exits:
+                R.violation("C07.R11", f.short, k, loc(f, exits[0]), f"the loop that fills `{acc[0]}` ({acc[1]}) can be left at line {exits[0].lineno} before every element was examined: defects in the remaining elements are never reported")
+            else:
+                R.ok("C07.R11", f.short, k, loc(f, lp), f"fills `{acc[0]}` and runs to the end")
+    if n == 0:
+        raise AnalysisError("C07.R11: no finding-collecting loop found")
+
+
 def run(ctx, R):
     r1(ctx, R)
     r2(ctx, R)
@@ -795,3 +861,4 @@ def run(ctx, R):
     r8(ctx, R)
     r9(ctx, R)
     r10(ctx, R)
+    r11(ctx, R)
